@@ -1,4 +1,4 @@
-import Amshan.Lemmas.GenCode
+import Amshan.Lemmas.GenCodeP1
 /-
   C04 (tie by translation) — DataReadout._calculate_crc16, mechanically translated from the source,
   equals the model's `calcCrc`.
